@@ -216,6 +216,9 @@ func ParentMain(prop, tier string, seed int64, only string) int {
 		if per < 1 {
 			per = 1
 		}
+		if s.Batch > 0 {
+			per = s.Batch
+		}
 		for a := 0; a < n; a += per {
 			b := a + per
 			if b > n {
